@@ -21,7 +21,7 @@ MCInit == Init /\ nextN = 1 /\ nextT = 1 /\ nextB = 1 /\ ops = 0
 \* notes created on the current chain and not spent on it
 ChainNotes   == UNION { OutNotes(e.tx) : e \in OnChain }
 ChainSpent   == UNION { Spends(e.tx) : e \in OnChain }
-Out(n, p, v) == [n |-> n, pool |-> p, v |-> v, acct |-> 1]
+Out(n, p, v) == [n |-> n, pool |-> p, v |-> v, acct |-> 1, int |-> FALSE]
 
 Menu == { << >> }                                                                    \* empty block
         \cup (IF nextN <= MaxNotes
